@@ -156,6 +156,66 @@ theorem block_pixel_rows (img : Img) (x y : Nat) (hy : y < ceilDiv img.h 2) :
     (`opaque_exact_*`, `transparent_default*`, `half_block_table` say what a cell is for its two pixels). -/
 theorem block_cells_are : halfCells = blockCells halfCell ∧ fullCells = blockCells fullCell := ⟨rfl, rfl⟩
 
+/-! ## Resized images: the scaler as a parameter with a stated hypothesis -/
+
+/-- An opaque source pixel `color.NRGBA{r, g, b, 255}` as `At(x, y).RGBA()` returns it. -/
+def OpaquePx (p : C16) : Prop := ∃ r g b, r < 256 ∧ g < 256 ∧ b < 256 ∧ p = .ofQuad (nrgbaRGBA r g b 255)
+
+/-- The hypothesis on `draw.NearestNeighbor.Scale(dst, dst.Rect, img, img.Bounds(), draw.Over, nil)` (a library, not
+    modelled): `dst` has the requested size and each of its pixels is a pixel of the source.  (Nearest neighbour copies source
+    pixels; for opaque pixels compositing `Over` a fresh transparent `image.RGBA` and its 8-bit premultiplied storage change
+    nothing.  For translucent pixels the storage quantises, which is why the statement is about opaque images.) -/
+structure ScalerPicks (src dst : Img) (pw ph : Nat) : Prop where
+  w : dst.w = pw
+  h : dst.h = ph
+  picks : ∀ x y, x < pw → y < ph → ∃ sx sy, sx < src.w ∧ sy < src.h ∧ dst.at x y = src.at sx sy
+
+/-- **Pixels of a resized opaque image.** Under `ScalerPicks`, every cell of the half-block rendering of the resized image is
+    the upper half block `▀` whose foreground is *exactly* the colour of a source pixel (the one the scaler put at `(x, 2y)`)
+    and whose background is exactly the colour of a source pixel (the one at `(x, 2y+1)`) — or the default colour in the last
+    row of an odd pixel height, where there is no lower pixel. -/
+theorem resized_opaque_half (src dst : Img) (pw ph : Nat) (hs : ScalerPicks src dst pw ph)
+    (hop : ∀ x y, x < src.w → y < src.h → OpaquePx (src.at x y)) :
+    ∀ e ∈ halfCells dst, e.1 < pw ∧ e.2.1 < ceilDiv ph 2 ∧
+      ∃ sx sy tr tg tb, sx < src.w ∧ sy < src.h ∧ src.at sx sy = .ofQuad (nrgbaRGBA tr tg tb 255) ∧
+        e.2.2.glyph = 0x2580 ∧ e.2.2.fg = directColor tr tg tb ∧
+        ((2 * e.2.1 + 1 < ph ∧ ∃ sx' sy' br bg bb, sx' < src.w ∧ sy' < src.h ∧
+            src.at sx' sy' = .ofQuad (nrgbaRGBA br bg bb 255) ∧ e.2.2.bg = directColor br bg bb) ∨
+         (¬ 2 * e.2.1 + 1 < ph ∧ e.2.2.bg = 0)) := by
+  intro e he
+  obtain ⟨h1, h2, h3, _⟩ := (block_cell_pixels halfCell dst).2.2 e he
+  rw [hs.w] at h1
+  rw [hs.h] at h2
+  refine ⟨h1, h2, ?_⟩
+  obtain ⟨hrow, _⟩ := block_pixel_rows dst e.1 e.2.1 (by rw [hs.h]; exact h2)
+  rw [hs.h] at hrow
+  obtain ⟨sx, sy, hsx, hsy, htop⟩ := hs.picks e.1 (2 * e.2.1) h1 hrow
+  obtain ⟨tr, tg, tb, htr, htg, htb, hpx⟩ := hop sx sy hsx hsy
+  refine ⟨sx, sy, tr, tg, tb, hsx, hsy, hpx, ?_⟩
+  by_cases hbot : 2 * e.2.1 + 1 < ph
+  · obtain ⟨sx', sy', hsx', hsy', hb⟩ := hs.picks e.1 (2 * e.2.1 + 1) h1 hbot
+    obtain ⟨br, bg, bb, hbr, hbg, hbb, hpx'⟩ := hop sx' sy' hsx' hsy'
+    have hc : e.2.2 = ⟨0x2580, directColor tr tg tb, directColor br bg bb⟩ := by
+      rw [h3, htop, hb, hpx, hpx']
+      exact C20.opaque_exact_half tr tg tb br bg bb htr htg htb hbr hbg hbb
+    rw [hc]
+    exact ⟨rfl, rfl, Or.inl ⟨hbot, sx', sy', br, bg, bb, hsx', hsy', hpx', rfl⟩⟩
+  · have hz : dst.at e.1 (2 * e.2.1 + 1) = ⟨0, 0, 0, 0⟩ := by
+      have : ¬ (2 * e.2.1 + 1 < dst.h) := by rw [hs.h]; exact hbot
+      simp [Img.at, this]
+    have hc : e.2.2 = ⟨0x2580, directColor tr tg tb, 0⟩ := by
+      rw [h3, htop, hz, hpx]
+      rw [halfCell, C20.opaque_exact_nrgba _ _ _ htr htg htb, C20.transparent_default]
+      have hz' : toRGB ⟨0, 0, 0, 0⟩ = ⟨0, 0, 0, 0⟩ := by decide
+      rw [hz']
+      simp [rgbColor_eq, htr, htg, htb]
+    rw [hc]
+    exact ⟨rfl, rfl, Or.inr ⟨hbot, rfl⟩⟩
+
+/-- Non-vacuity: the identity "scaler" (an image that already fits is returned as it is) meets the hypothesis. -/
+example (img : Img) : ScalerPicks img img img.w img.h :=
+  ⟨rfl, rfl, fun x y hx hy => ⟨x, y, hx, hy, rfl⟩⟩
+
 /-! ## Drawing touches only cells inside the target window (composition with C11) -/
 
 open VaxisModel.Model.Window VaxisModel.Spec.Window in
